@@ -260,13 +260,13 @@ func (r *vcRun) inLoop(f func()) bool {
 	done := make(chan struct{})
 	select {
 	case r.mgr.jobs <- func() { f(); close(done) }:
-	case <-time.After(20 * time.Second):
+	case <-time.After(10 * time.Second):
 		return false
 	}
 	select {
 	case <-done:
 		return true
-	case <-time.After(20 * time.Second):
+	case <-time.After(10 * time.Second):
 		return false
 	}
 }
@@ -333,7 +333,7 @@ func (r *vcRun) dump() (*vcState, map[string]bool) {
 
 // settle waits until every live job is parked in a gate and returns the state dumped at that moment.
 func (r *vcRun) settle() (*vcState, map[string]string, string) {
-	deadline := time.Now().Add(30 * time.Second)
+	deadline := time.Now().Add(10 * time.Second)
 	for {
 		st, live := r.dump()
 		if st == nil {
@@ -487,7 +487,7 @@ func (r *vcRun) observe(act []interface{}) *vcStep {
 	select {
 	case s := <-stc:
 		step.Locks, step.NIdx, step.NQueue, step.NPcaps = s.IndexLockCount, s.IndexCount, s.ImportJobCount, s.PcapCount
-	case <-time.After(20 * time.Second):
+	case <-time.After(10 * time.Second):
 		step.Fatal = "Status() does not return"
 		return step
 	}
@@ -690,7 +690,7 @@ func (r *vcRun) scenario(w *bufio.Writer) {
 	finish := func() {
 		// let everything run to completion without gates, then close the manager
 		vcCtl.setFree(true)
-		deadline := time.Now().Add(20 * time.Second)
+		deadline := time.Now().Add(8 * time.Second)
 		for time.Now().Before(deadline) {
 			_, live := r.dump()
 			if live == nil || len(live) == 0 {
@@ -702,7 +702,7 @@ func (r *vcRun) scenario(w *bufio.Writer) {
 		go func() { evClose(); mgr.Close(); close(c) }()
 		select {
 		case <-c:
-		case <-time.After(20 * time.Second):
+		case <-time.After(10 * time.Second):
 		}
 	}
 	defer finish()
